@@ -146,6 +146,12 @@ let parse_op (ws : string list) : map_op =
   | "capacity" -> OpCapacity
   | "allocsize" -> OpAllocationSize
   | "dropmap" -> OpDropMap
+  | "par_iter" | "par_keys" | "par_values" -> OpIter
+  | "par_iter_mut" | "par_values_mut" -> OpRetain ([], z 2)          (* keep list is filled in by the caller *)
+  | "into_par_iter" -> OpDrain (nat_of_int 0)
+  | "par_drain" -> OpDrain (nat_of_int 0)                            (* count filled in by the caller *)
+  | "par_extend" -> OpExtend (List.map parse_kv3 (rest 2))
+  | "par_split" -> OpLen
   | "sinsert" -> OpSetInsert (z 1, z 2)
   | "sreplace" -> OpSetReplace (z 1, z 2)
   | "stake" -> OpSetTake (z 1)
@@ -697,12 +703,42 @@ let () =
        cur_salt := salt_of_line pre_s;
        let where = Printf.sprintf "script=%s step=%s op=[%s]" !script stepno (String.concat " " opws) in
        (try
-         let op = parse_op opws in
+         let op0 = parse_op opws in
          bump opcount (List.hd opws);
          let pre = parse_dump pre_s and post = parse_dump post_s in
          let tpre = table_of_dump pre and tpost = table_of_dump post in
+         let opname = List.hd opws in
+         let is_par = (String.length opname >= 4 && String.sub opname 0 4 = "par_") || opname = "into_par_iter" in
+         (* rayon operations are judged against the reference map (A) and the invariant (B); the
+            delivery order is the scheduler's choice, so there is no step model for them *)
+         let op = (match opname, op0 with
+           | ("par_iter_mut" | "par_values_mut"), OpRetain (_, add) -> OpRetain (List.map (fun (e : kv) -> e.k_id) (occupants tpre), add)
+           | "par_drain", _ | "into_par_iter", _ ->
+             (match parse_out ret_s with Some (OutList l) -> OpDrain (nat_of_int (List.length l)) | _ -> op0)
+           | _ -> op0) in
          if chk_s <> "ok" then say "H-FAIL %s: harness check: %s" where chk_s;
          if List.mem "MISALIGNED_CTRL" post.d_flags then say "H-FAIL %s: control bytes misaligned" where;
+         if opname = "par_split" then begin
+           (* level C for the splitting itself: every leaf of the caller-chosen split tree *)
+           let dec = (match opws with [_; bits] -> List.init (String.length bits) (fun i -> bits.[i] = '1') | _ -> []) in
+           incr c_checked;
+           (match split_leaves cfg.backend tpre dec with
+            | Fail e -> say "C-MISMATCH %s: model split stops with %s" where (err_text e)
+            | Ok ls ->
+              let txt = "leaves " ^ (if ls = [] then "-" else String.concat "|" (List.map (fun l ->
+                  if l = [] then "_" else String.concat "," (List.map (fun x -> string_of_int (int_of_nat x)) l)) ls)) in
+              if txt <> ret_s then say "C-MISMATCH %s: leaves: model [%s] impl [%s]" where txt ret_s;
+              bump branch (Printf.sprintf "split_leaves_%d" (min 9 (List.length ls))));
+           (* level A: the leaves partition the FULL buckets *)
+           let impl_leaves = (match strip_prefix "leaves " ret_s with
+             | Some "-" -> [] | Some r -> List.map (fun l -> if l = "_" then [] else List.map int_of_string (String.split_on_char ',' l)) (String.split_on_char '|' r)
+             | None -> []) in
+           let all = List.sort compare (List.concat impl_leaves) in
+           let full = List.sort compare (List.map fst pre.d_slots) in
+           incr a_checked;
+           if all <> full then say "A-FAIL %s: the leaves of the split tree do not deliver every stored element exactly once: delivered buckets [%s] stored [%s]" where
+               (String.concat "," (List.map string_of_int all)) (String.concat "," (List.map string_of_int full))
+         end;
          (* arms *)
          let armws = List.map words (String.split_on_char ';' arm) in
          let panic_key = List.fold_left (fun acc w -> match w with ["hashpanic_key"; k] -> Some (zs k) | _ -> acc) None armws in
@@ -724,7 +760,7 @@ let () =
              say "B-FAIL %s: post-state violates Tags/Reach for its hashes: %s" where (dump_text post)
          end;
          (* ---- level C ---- *)
-         if do_c && lawful && not other_arm && not is_libpanic then begin
+         if do_c && lawful && not other_arm && not is_libpanic && not is_par then begin
            incr c_checked;
            (match map_step cfg.backend cfg.tsize cfg.talign cfg.needs_drop rehash_guard_unconditional
                     (hash_of panic_key) refuse tpre op with
@@ -750,7 +786,7 @@ let () =
               if int_of_nat tpre.mask + 1 < cfg.gw && int_of_nat tpre.mask > 0 then bump branch "small_table")
          end else incr c_skipped;
          (* ---- level A ---- *)
-         if do_a && lawful && !spec_valid then begin
+         if do_a && lawful && !spec_valid && opname <> "par_split" then begin
            incr a_checked;
            let contents = occupants tpost in
            (match ret with
